@@ -20,13 +20,14 @@ LEVEL_NOTE = ("Trusted: Lean kernel (+ standard axioms); kernel translator (K10)
               "+ / == and HashSet are correspondence-only; a single lookup of an ABSENT key is unspecified by the property (the "
               "library returns the shared scalar or an empty array) and not judged.")
 TECHNIQUE = "Lean 4 refinement proof (induction over the history) to a dictionary; kernel K10 from source; correspondence"
-DESIGN_REF = "6.11"
+DESIGN_REF = "7"
 LEAN_MODULES = ["NpsVerif.Props.C11"]
 KERNELS = ("ht_hash",)
-RULE = ("cases = key set (1..8 distinct keys: small / colliding / negative / +-2**62 / dtype extremes) x key dtype x modulus (None, 1, 2, 3, "
+RULE = ("cases = key set (1..48 distinct keys: small / colliding / negative / +-2**62 / dtype extremes) x key dtype x modulus (None, 1, 2, 3, "
         "7, n, 2n-1, 1000) x initial values (per-key array / scalar) x history of 1..8 operations (vector & single lookup, scalar & "
         "per-key assignment, fill, contains, HashSet.contains, items / to_dict, zeros_like, ones_like, +, ==) with ~25% malformed "
-        "queries; distinct = distinct (keys, mod, history); non-trivial = >= 2 keys and >= 2 operations")
+        "queries; on narrow key dtypes a third of the cases query with int64 arrays incl. absent keys congruent to a present key "
+        "modulo 2**bits; distinct = distinct (keys, mod, history); non-trivial = >= 2 keys and >= 2 operations")
 EXHAUSTIVE = {"quick": False, "thorough": False}
 CORRESPONDENCE_ONLY = ["zeros_like / ones_like / + / ==", "HashSet.contains", "value dtypes"]
 ASSUMPTIONS = ["keys handed to the constructor are distinct (the library's documented precondition)"]
